@@ -50,7 +50,29 @@ def main():
         for m in re.finditer(r"^bool\s+([A-Za-z0-9_:]+)::handleStanza\(([^)]*)\)", txt, re.M):
             cls = m.group(1).split("::")[-1]
             new_style = "QXmppE2eeMetadata" in m.group(2)
-            sites.append((cls, new_style, fn))
+            # body of the function (brace matching from the first '{' after the signature)
+            i = txt.index("{", m.end()); depth = 0; j = i
+            while True:
+                if txt[j] == "{": depth += 1
+                elif txt[j] == "}":
+                    depth -= 1
+                    if depth == 0: break
+                j += 1
+            body = re.sub(r"//[^\n]*", "", txt[i:j + 1])
+            # what decides whether the handler claims a stanza: `isXyz(` predicates and handleIqRequests<…> type lists
+            preds = []
+            for pm in re.finditer(r"\b((?:\w+::)*is[A-Z]\w*)\s*\(|handleIqRequests<([^>]*)>", body):
+                if pm.group(1):
+                    name = pm.group(1).split("::")[-1]
+                    if name in ("isNull", "isEmpty", "isValid"):
+                        continue
+                    preds.append(name)
+                else:
+                    preds += ["requests<" + t.strip() + ">" for t in pm.group(2).split(",")]
+            seen = []
+            for q in preds:
+                if q not in seen: seen.append(q)
+            sites.append((cls, new_style, fn, seen))
     if len(sites) < 10:
         fail("fewer than 10 handleStanza definitions found in src/client")
     client = open(os.path.join(cdir, "QXmppClient.cpp"), encoding="utf8").read()
@@ -76,7 +98,8 @@ def main():
 
     lines = []
     skipped = []
-    for cls, new_style, fn in sites:
+    pred_lines = []
+    for cls, new_style, fn, preds in sites:
         if cls in NOT_EXTENSIONS:
             continue
         if cls in NOT_BUILT:
@@ -84,6 +107,7 @@ def main():
             continue
         row = ROWS.get(cls)
         lines.append('  ("%s", %s, %s)' % (cls, ("some .%s" % row) if row else "none", "true" if new_style else "false"))
+        pred_lines.append('  ("%s", [%s])' % (cls, ", ".join('"%s"' % q for q in preds)))
     dflt = []
     for cls in default:
         row = ROWS.get(cls)
@@ -98,6 +122,12 @@ def main():
     out.append("`bool X::handleStanza(` definition in src/client/*.cpp that is an extension of the built library -/")
     out.append("def handlerSites : List (String × Option Mgr × Bool) := [")
     out.append(",\n".join(lines))
+    out.append("]")
+    out.append("")
+    out.append("/-- per handler class: the `isXyz(` predicates called in the body of its handleStanza and the IQ types given to")
+    out.append("`handleIqRequests<…>`, in order of first appearance — what decides whether the handler claims a stanza -/")
+    out.append("def handlerPredicates : List (String × List String) := [")
+    out.append(",\n".join(pred_lines))
     out.append("]")
     out.append("")
     out.append("/-- `case BasicExtensions:` of the QXmppClient constructor, in order -/")
